@@ -113,6 +113,15 @@ def run(ctx):
         s = to_str(ver, pfx, a, rng)
         for fam, b, slots in variants(ver, a, rng):
             cases.append((ver, fam, s, to_str(ver, pfx, b, rng), slots))
+    # the special families (corners, caps, low end, every metric spelled out, rounding ties) as starting points too
+    fam_strings = [("2", s) for s in core.v2_low_family()[::2]]
+    for ver in "234":
+        fam_strings += [(ver, s) for s in core.special(ver, rng, ctx.n(1200, 25000))]
+    for ver, s0 in fam_strings:
+        pfx, fields = obs.parse_fields(ver, s0)
+        a = dict(fields)
+        for fam, b, slots in variants(ver, a, rng):
+            cases.append((ver, fam, s0, to_str(ver, pfx, b, rng), slots))
     ctx.sample({"family": cases[0][1], "vector": cases[0][2], "variant": cases[0][3]})
     for ver in "234":
         flat = list(dict.fromkeys([(ver, c[2]) for c in cases if c[0] == ver] + [(ver, c[3]) for c in cases if c[0] == ver]))
